@@ -31,7 +31,7 @@ TREE_WRITERS = {  # fields that are trees by construction: reviewed list of writ
                  P + "submodule.Submodule.resolve_link", P + "intrinsics.Intrinsic.__init__",
                  P + "intrinsics.Intrinsic.add_child", P + "scope.Scope.copy_from",
                  P + "ast.FortranAST.resolve_includes"},
-    "in_children": {P + "type.Type.__init__", P + "type.Type._resolve_inherit_parent",
+    "in_children": {P + "type.Type.__init__", P + "type.Type._resolve_inherit_parent", P + "type.Type.resolve_inherit",
                     P + "subroutine.Subroutine.__init__", P + "subroutine.Subroutine.resolve_arg_link",
                     P + "function.Function.__init__", P + "function.Function.copy_interface",
                     P + "subroutine.Subroutine.copy_interface", P + "scope.Scope.copy_from"},
